@@ -11,6 +11,7 @@ package main
 
 import (
 	"errors"
+	"time"
 	"math"
 	"regexp"
 	"strings"
@@ -214,6 +215,7 @@ var c11d11bGlue = []c11d11bFn{
 	{"split", "SplitFunc", stdlib.SplitFunc},
 	{"indent", "IndentFunc", stdlib.IndentFunc},
 	{"substr", "SubstrFunc", stdlib.SubstrFunc},
+	{"timeadd", "TimeAddFunc", stdlib.TimeAddFunc},
 }
 
 // c11D11bStrs: the arguments as plain strings when ALL of them are known, non-null, unmarked
@@ -289,6 +291,18 @@ func c11D11bOracle(model string, args []cty.Value) *oracle {
 			o.add("split", []string{ss[1], ss[0]}, encStrs(parts))
 			for _, p := range parts {
 				o.nfc(p)
+			}
+		}
+	case "timeadd":
+		if ss, ok := c11D11bStrs(args, 0, 1); ok && len(args) == 2 {
+			if t, tok := o.parseTimestamp(ss[0]); tok {
+				d, err := time.ParseDuration(ss[1])
+				o.add("parseDuration", []string{ss[1]}, encBool(err == nil))
+				if err == nil {
+					lib := t.Add(d).Format(time.RFC3339)
+					o.add("timeAdd", ss, encStr(lib))
+					o.nfc(lib)
+				}
 			}
 		}
 	case "chomp":
